@@ -229,8 +229,12 @@ def check_log_fluxes(ctx):
         # a model that emits nothing in a band has no logarithm there: it is marked -infinity (its chi^2 is then infinite or undefined and it ranks last), never a finite number
         if isinstance(out, Arr) and out.mask is None:
             zero = Facts().assume_true(alg.eq(Fm, 0)).simplify(out.poly)
-            compare(ctx, 'ALG-8', 'log_fluxes_mJy %d-D where the model flux is zero' % len(dd), loc(g), Arr(out.dims, zero, None, out.unit), Poly() - sym('INF'), dd, None, {'Fm', 'INF'},
-                    findings=I.findings, detail_ok='-infinity where the flux is zero')
+            natural = alg.log10(Fm / sym('unit:mJy'))          # the logarithm itself, left to IEEE arithmetic: log10(0) is -infinity
+            if tuple(out.dims) == tuple(dd) and zero == natural:
+                ctx.ok('ALG-8', 'log_fluxes_mJy %d-D where the model flux is zero' % len(dd), loc(g), 'the logarithm of the zero flux itself: -infinity in IEEE arithmetic')
+            else:
+                compare(ctx, 'ALG-8', 'log_fluxes_mJy %d-D where the model flux is zero' % len(dd), loc(g), Arr(out.dims, zero, None, out.unit), Poly() - sym('INF'), dd, None, {'Fm', 'INF'},
+                        findings=I.findings, detail_ok='-infinity where the flux is zero')
 
 
 def check_flag_weights(ctx):
